@@ -161,10 +161,11 @@ def run_history(spec, hist):
     model = spec.model_init()
     outs = []
     for op in hist:
-        model, _ = spec.model_apply(model, op, pool)
+        new_model, _ = spec.model_apply(model, op, pool)
         try:
             spec.apply(pool, op)
             outs.append('ok')
+            model = new_model            # a rejected operation leaves the reference model where it was
         except Exception as e:
             outs.append('raise:' + type(e).__name__)
     return pool, model, outs
